@@ -436,7 +436,10 @@ func (gb *gcpBalancer) bindSubConn(bindKey string, sc balancer.SubConn) {
 	if !ok {
 		gb.affinityMap[bindKey] = sc
 	}
-	gb.scRefs[sc].affinityIncr()
+	if scRef := gb.scRefs[sc]; scRef != nil {
+		// The subconn may have been shut down while the call was in flight.
+		scRef.affinityIncr()
+	}
 }
 
 // unbindSubConn removes the existing binding associated with the key.
@@ -445,7 +448,9 @@ func (gb *gcpBalancer) unbindSubConn(boundKey string) {
 	defer gb.mu.Unlock()
 	boundSC, ok := gb.affinityMap[boundKey]
 	if ok {
-		gb.scRefs[boundSC].affinityDecr()
+		if scRef := gb.scRefs[boundSC]; scRef != nil {
+			scRef.affinityDecr()
+		}
 		delete(gb.affinityMap, boundKey)
 	}
 }
